@@ -17,6 +17,8 @@ import Hv.Patch.OpsWf
 import Hv.Patch.Untouched
 import Hv.Patch.LeafBytes
 import Hv.Patch.NumLemmas
+import Hv.Patch.SpecRefine
+import Hv.Patch.Target
 
 namespace Hv.C13
 open Hv.Patch
@@ -230,6 +232,48 @@ example : sitePos [.field [0x61], .field [0x78]]
     (.map [([0x61], .map [([0x78], .leaf [1])]), ([0x62], .leaf [2])]) = [0] := by decide
 example : Diverge [0] [1] := Diverge.here [] [] (by decide)
 
+/-- The same relative to the place the path RESOLVES to (`Spec.resolve`: `p` = position of the
+    container that holds the final segment, `hit` = what the final segment finds there).
+    Everything off `p` is identical, and inside that container every child other than the target
+    keeps its sub-tree — at the same index, one down after DELETE / REMOVE_AT, one up after
+    PREPEND (`movedTo`).  For a one-segment path `p = []`: the siblings in the root map. -/
+theorem untouched_target {cfg : Cfg} {t t' : Node} {op : Op} {segs : List Seg} {p : List Nat} {hit : Hit}
+    (h : applyOp cfg t op segs = .ok t') (hres : Spec.resolve segs t = .ok (p, hit)) :
+    (∀ q, Diverge p q → getAt t' q = getAt t q) ∧
+    (∀ j j' r x, movedTo op.kind hit j = some j' → getAt t (p ++ j :: r) = some x →
+      getAt t' (p ++ j' :: r) = some x) :=
+  applyOp_carries h hres
+
+/-- non-vacuity, one-segment path: in `{"a": 1, "b": [2]}`, `SET a ← 9` resolves to the root map
+    (`p = []`), target index 0; child 1 (`b`) and everything below it stay where they are -/
+example : Spec.resolve [.field [0x61]] (.map [([0x61], .leaf [1]), ([0x62], .arr [.leaf [2]])]) = .ok ([], .target 0) := by
+  rfl
+example : movedTo .set (.target 0) 1 = some 1 ∧ movedTo .delete (.target 0) 1 = some 0 ∧
+    movedTo .prepend .appendSlot 1 = some 2 := by decide
+
+/-! ## 3b. a successful patch stores exactly the documented document -/
+
+/-- SPEC refinement (`Hv.Patch.Spec`: the eight ops over the DECODED document — auto-create,
+    negative indices, first-match on duplicate keys, shallow MERGE, INC in the target's format).
+    `_partial`: all eight ops are covered, REMOVE_VAL only with a scalar value — a container value
+    matches a container element only when that element was spliced in earlier in the same patch
+    (`applyRemoveVal` skips parsed containers), which no value-level semantics can express. -/
+theorem apply_refines_spec_partial {cfg : Cfg} (hv : cfg.validatesValues = true)
+    {body : Bytes} {ops : List Op} {cond : Option Condition} {out : Bytes} {t : Node}
+    (hparse : parse body = .ok t) (hpaths : ∀ op ∈ ops, op.path.length < 2 ^ 32)
+    (hrv : ∀ op ∈ ops, RemoveValScalar op)
+    (hsize : maxCh t + totalGrowth cfg ops < 2 ^ 32)
+    (h : applyWithCondition cfg body ops cond = .ok out) :
+    ∃ d, Spec.refOps t ops = .ok d ∧ parse out = .ok d :=
+  applyWithCondition_refines hv hparse hpaths hrv hsize h
+
+/-- the Spec is executable: `{"t":[1]}`, SET x ← "y", APPEND t[] ← 2, INC t[-1] by 5 (int8 delta on a
+    fixint: class mismatch is an error; uint delta works and widens per the rule) -/
+example : Spec.refOps (.map [([0x74], .arr [.leaf [1]])])
+    [⟨.set, [0x78], [0xa1, 0x79]⟩, ⟨.append, [0x74, 0x5b, 0x5d], [0x02]⟩, ⟨.inc, [0x74, 0x5b, 0x2d, 0x31, 0x5d], [0x05]⟩]
+    = .ok (.map [([0x74], .arr [.leaf [1], .leaf [0xcf, 0, 0, 0, 0, 0, 0, 0, 7]]), ([0x78], .leaf [0xa1, 0x79])]) := by
+  rfl
+
 /-! ## 4. a failing op or an unmet condition leaves the body unchanged -/
 
 theorem ops_atomic (cfg : Cfg) (body : Bytes) (ops : List Op) (cond : Option Condition) (e : Err)
@@ -263,6 +307,41 @@ theorem cond_unmet (cfg : Cfg) (body : Bytes) (t : Node) (ops : List Op) (c : Co
 example : applyWithCondition ⟨true, .neverEqual, .widen64⟩ [0x81, 0xa1, 0x78, 0x01]
     [⟨.set, [0x79], [0x02]⟩, ⟨.inc, [0x78], [0xa1, 0x61]⟩] none = .error .type := by decide
 
+/-- the condition (if any) holds on the parsed body -/
+def CondMet (cfg : Cfg) (t : Node) : Option Condition → Prop
+  | none => True
+  | some c => evalCond cfg t c = .ok ()
+
+/-- Atomicity of the whole call: however many ops have already succeeded — and although that
+    prefix on its own WOULD have produced a different body (`serialize t1`) — the first failing op
+    makes the call fail with that op's error and the caller keeps the ORIGINAL body bytes. -/
+theorem atomic_fold (cfg : Cfg) (body : Bytes) (t t1 : Node) (pre : List Op) (op : Op) (post : List Op)
+    (cond : Option Condition) (e : Err)
+    (hp : parse body = .ok t) (hc : CondMet cfg t cond)
+    (hpre : applyOps cfg t pre = .ok t1) (hop : stepOp cfg t1 op = .error e) :
+    applyWithCondition cfg body pre cond = .ok (serialize t1) ∧
+    applyWithCondition cfg body (pre ++ op :: post) cond = .error e ∧
+    bodyAfter cfg body (pre ++ op :: post) cond = body := by
+  have hfold := ops_atomic_fold cfg pre t t1 op post e hpre hop
+  have h1 : applyWithCondition cfg body pre cond = .ok (serialize t1) := by
+    unfold applyWithCondition; rw [hp]; simp only
+    cases cond with
+    | none => simp only; rw [hpre]
+    | some c => simp only; rw [show evalCond cfg t c = .ok () from hc]; simp only; rw [hpre]
+  have h2 : applyWithCondition cfg body (pre ++ op :: post) cond = .error e := by
+    unfold applyWithCondition; rw [hp]; simp only
+    cases cond with
+    | none => simp only; rw [hfold]
+    | some c => simp only; rw [show evalCond cfg t c = .ok () from hc]; simp only; rw [hfold]
+  exact ⟨h1, h2, ops_atomic _ _ _ _ _ h2⟩
+
+/-- non-vacuity: SET y ← 2 alone changes the body; followed by a failing INC the body is kept -/
+example : bodyAfter ⟨true, .neverEqual, .widen64⟩ [0x81, 0xa1, 0x78, 0x01] [⟨.set, [0x79], [0x02]⟩] none
+      = [0x82, 0xa1, 0x78, 0x01, 0xa1, 0x79, 0x02] ∧
+    bodyAfter ⟨true, .neverEqual, .widen64⟩ [0x81, 0xa1, 0x78, 0x01]
+      [⟨.set, [0x79], [0x02]⟩, ⟨.inc, [0x78], [0xa1, 0x61]⟩, ⟨.delete, [0x78], []⟩] none
+      = [0x81, 0xa1, 0x78, 0x01] := by decide
+
 /-! ## 5. INC keeps the target's numeric format -/
 
 /-- the code's actual rule (fact `incFixint = widen64`): a target with a width of its own keeps
@@ -275,6 +354,23 @@ theorem inc_preserves_code {code : UInt8} {cls : NumClass} {t d : Nat} {nr : Byt
       ((cls = .int ∧ nr.head? = some 0xd3) ∨ (cls = .uint ∧ nr.head? = some 0xcf))) ∧
     classOf (nr.headD 0) = cls :=
   Hv.Patch.inc_preserves_code hc h
+
+/-- at the op level: a successful INC whose path resolves to an existing leaf leaves, at that very
+    position, a leaf with the target's format code and width (fixint: the 64-bit code of its
+    class) and the same numeric class — also when that leaf was replaced earlier in the patch -/
+theorem inc_keeps_format {cfg : Cfg} {t t' : Node} {op : Op} {segs : List Seg} {p : List Nat} {i : Nat}
+    {raw : Bytes} (hk : op.kind = .inc) (h : applyOp cfg t op segs = .ok t')
+    (hres : Spec.resolve segs t = .ok (p, .target i)) (hleaf : getAt t (p ++ [i]) = some (.leaf raw)) :
+    ∃ nr, getAt t' (p ++ [i]) = some (.leaf nr) ∧
+      (∀ k, typedWidth (raw.headD 0) = some k → nr.head? = some (raw.headD 0) ∧ nr.length = k + 1) ∧
+      (typedWidth (raw.headD 0) = none → nr.length = 9 ∧ (nr.head? = some 0xd3 ∨ nr.head? = some 0xcf)) ∧
+      classOf (nr.headD 0) = classOf (raw.headD 0) :=
+  applyOp_inc_code hk h hres hleaf
+
+/-- SET x ← uint16 256, then INC x by 1: stays uint16 -/
+example : applyWithCondition ⟨true, .neverEqual, .widen64⟩ [0x81, 0xa1, 0x78, 0x01]
+    [⟨.set, [0x78], [0xcd, 0x01, 0x00]⟩, ⟨.inc, [0x78], [0x01]⟩] none
+    = .ok [0x81, 0xa1, 0x78, 0xcd, 0x01, 0x01] := by decide
 
 example : computeInc 0xd0 .int 0x7f 1 = .ok [0xd0, 0x80] := by decide          -- int8 127+1 wraps
 example : computeInc 0x05 .uint 5 2 = .ok [0xcf, 0, 0, 0, 0, 0, 0, 0, 7] := by decide
@@ -314,13 +410,38 @@ example : readNumeric [0xcb, 0x7f, 0xf8, 0, 0, 0, 0, 0, 0] = .ok (.float, 0x7ff8
 structure Common (cfg : Cfg) : Prop where
   round_trip_exact : ∀ b t, parseStrict b = .ok t → serialize t = b ∧ parse b = .ok t
   round_trip : ∀ b t, parse b = .ok t → parse (serialize t) = .ok t
-  untouched : ∀ t t' op segs, applyOp cfg t op segs = .ok t' →
-    ∀ q, Diverge (sitePos segs t) q → getAt t' q = getAt t q
-  atomic : ∀ body ops cond e, applyWithCondition cfg body ops cond = .error e →
-    bodyAfter cfg body ops cond = body
-  inc_code : ∀ code cls t d nr, classOf code = cls → computeInc code cls t d = .ok nr →
-    (∀ k, typedWidth code = some k → nr.head? = some code ∧ nr.length = k + 1) ∧
-    classOf (nr.headD 0) = cls
+  /-- untouched: off the resolved container everything is identical; inside it every child but the
+      target keeps its sub-tree at the index `movedTo` gives (covers one-segment paths) -/
+  untouched : ∀ t t' op segs p hit, applyOp cfg t op segs = .ok t' → Spec.resolve segs t = .ok (p, hit) →
+    (∀ q, Diverge p q → getAt t' q = getAt t q) ∧
+    (∀ j j' r x, movedTo op.kind hit j = some j' → getAt t (p ++ j :: r) = some x →
+      getAt t' (p ++ j' :: r) = some x)
+  /-- … and such a leaf's bytes are a slice of the input and appear verbatim in the output -/
+  untouched_leaf : ∀ body t t' op segs q raw, parse body = .ok t → applyOp cfg t op segs = .ok t' →
+    Diverge (sitePos segs t) q → getAt t q = some (.leaf raw) →
+    raw <:+: body ∧ getAt t' q = some (.leaf raw) ∧ raw <:+: serialize t'
+  /-- inside a MERGE target: fields the value does not name keep value and index -/
+  merge_keeps : ∀ (pf : List (Bytes × Bytes)) (fs : Fields) (j : Nat) (k : Bytes) (c : Node),
+    fs[j]? = some (k, c) → (∀ kv ∈ pf, kv.1 ≠ k) → (mergeInto fs pf)[j]? = some (k, c)
+  /-- inside a REMOVE_VAL target: at most one element goes, order is kept -/
+  removeVal_keeps : ∀ (v : Bytes) (xs : List Node), (removeFirst v xs).Sublist xs
+  /-- atomicity: after any successful prefix, the first failing op fails the call and the caller
+      keeps the original bytes (the prefix alone would have changed them) -/
+  atomic : ∀ body t t1 pre op post cond e, parse body = .ok t → CondMet cfg t cond →
+    applyOps cfg t pre = .ok t1 → stepOp cfg t1 op = .error e →
+    applyWithCondition cfg body pre cond = .ok (serialize t1) ∧
+    applyWithCondition cfg body (pre ++ op :: post) cond = .error e ∧
+    bodyAfter cfg body (pre ++ op :: post) cond = body
+  /-- an unmet / failing condition: nothing runs -/
+  cond_unmet : ∀ body t ops c e, parse body = .ok t → evalCond cfg t c = .error e →
+    applyWithCondition cfg body ops (some c) = .error e ∧ bodyAfter cfg body ops (some c) = body
+  /-- INC at the op level keeps the target's format code / width / class -/
+  inc_code : ∀ t t' op segs p i raw, op.kind = .inc → applyOp cfg t op segs = .ok t' →
+    Spec.resolve segs t = .ok (p, .target i) → getAt t (p ++ [i]) = some (.leaf raw) →
+    ∃ nr, getAt t' (p ++ [i]) = some (.leaf nr) ∧
+      (∀ k, typedWidth (raw.headD 0) = some k → nr.head? = some (raw.headD 0) ∧ nr.length = k + 1) ∧
+      (typedWidth (raw.headD 0) = none → nr.length = 9 ∧ (nr.head? = some 0xd3 ∨ nr.head? = some 0xcf)) ∧
+      classOf (nr.headD 0) = classOf (raw.headD 0)
   order_int : ∀ a b av bv, readNumeric a = .ok (.int, av) → readNumeric b = .ok (.int, bv) →
     compareLeaf cfg a b = .ok (cmpInt (toInt64 av) (toInt64 bv))
   order_uint : ∀ a b av bv, readNumeric a = .ok (.uint, av) → readNumeric b = .ok (.uint, bv) →
@@ -342,28 +463,70 @@ def SuccessWfPartial (cfg : Cfg) : Prop :=
     maxCh t + totalGrowth (validating cfg) ops < 2 ^ 32 → applyWithCondition cfg body ops cond = .ok out →
     wf out = true
 
+/-- "a patch produces exactly the document the documented operation semantics describe":
+    parsing the returned body gives `Spec.refOps` of the parsed input body
+    (REMOVE_VAL with scalar values — see `apply_refines_spec_partial`) -/
+def RefinesSpec (cfg : Cfg) : Prop :=
+  ∀ body ops cond out t, parse body = .ok t → (∀ op ∈ ops, op.path.length < 2 ^ 32) →
+    (∀ op ∈ ops, RemoveValScalar op) →
+    maxCh t + totalGrowth cfg ops < 2 ^ 32 → applyWithCondition cfg body ops cond = .ok out →
+    ∃ d, Spec.refOps t ops = .ok d ∧ parse out = .ok d
+
+/-- the same, restricted to op lists whose spliced values are valid -/
+def RefinesSpecPartial (cfg : Cfg) : Prop :=
+  ∀ body ops cond out t, parse body = .ok t → (∀ op ∈ ops, op.path.length < 2 ^ 32) →
+    (∀ op ∈ ops, RemoveValScalar op) → (∀ op ∈ ops, ValueOk op) →
+    maxCh t + totalGrowth (validating cfg) ops < 2 ^ 32 → applyWithCondition cfg body ops cond = .ok out →
+    ∃ d, Spec.refOps t ops = .ok d ∧ parse out = .ok d
+
 /-- full-strength statement of the property on the model -/
-def Holds (cfg : Cfg) : Prop := Common cfg ∧ SuccessWf cfg ∧ NanEqualNothing cfg
+def Holds (cfg : Cfg) : Prop := Common cfg ∧ SuccessWf cfg ∧ NanEqualNothing cfg ∧ RefinesSpec cfg
 
 /-- what remains true while the findings stand -/
-def HoldsExcept (cfg : Cfg) : Prop := Common cfg ∧ SuccessWfPartial cfg
+def HoldsExcept (cfg : Cfg) : Prop := Common cfg ∧ SuccessWfPartial cfg ∧ RefinesSpecPartial cfg
 
 theorem common (cfg : Cfg) : Common cfg where
   round_trip_exact := fun _ _ h => parse_serialize h
   round_trip := fun _ _ h => parse_serialize_structural h
-  untouched := fun _ _ _ _ h q hq => (untouched_bytes h q hq).1
-  atomic := ops_atomic cfg
-  inc_code := fun _ _ _ _ _ hc h => ⟨(inc_preserves_code hc h).1, (inc_preserves_code hc h).2.2⟩
+  untouched := fun _ _ _ _ _ _ h hres => untouched_target h hres
+  untouched_leaf := fun _ _ _ _ _ _ _ hp h hq hl => untouched_leaf_bytes hp h hq hl
+  merge_keeps := mergeInto_keeps
+  removeVal_keeps := removeFirst_sublist
+  atomic := fun body t t1 pre op post cond e hp hc hpre hop => atomic_fold cfg body t t1 pre op post cond e hp hc hpre hop
+  cond_unmet := fun body t ops c e hp hc => cond_unmet cfg body t ops c e hp hc
+  inc_code := fun _ _ _ _ _ _ _ hk h hres hl => inc_keeps_format hk h hres hl
   order_int := (cond_numeric cfg).1
   order_uint := (cond_numeric cfg).2.1
   order_float := (cond_numeric cfg).2.2.1
 
+theorem applyWithCondition_validating {cfg : Cfg} {body : Bytes} {ops : List Op} {cond : Option Condition}
+    {t : Node} (hparse : parse body = .ok t) (hvals : ∀ op ∈ ops, ValueOk op) :
+    applyWithCondition cfg body ops cond = applyWithCondition (validating cfg) body ops cond := by
+  unfold applyWithCondition
+  rw [hparse]; simp only
+  cases cond with
+  | none => simp only; rw [applyOps_validating ops t hvals]
+  | some c => simp only; rw [evalCond_validating, applyOps_validating ops t hvals]
+
+/-- `_partial` of the refinement for the unrepaired code: valid spliced values only -/
+theorem apply_refines_spec_unvalidated_partial {cfg : Cfg}
+    {body : Bytes} {ops : List Op} {cond : Option Condition} {out : Bytes} {t : Node}
+    (hparse : parse body = .ok t) (hpaths : ∀ op ∈ ops, op.path.length < 2 ^ 32)
+    (hrv : ∀ op ∈ ops, RemoveValScalar op) (hvals : ∀ op ∈ ops, ValueOk op)
+    (hsize : maxCh t + totalGrowth (validating cfg) ops < 2 ^ 32)
+    (h : applyWithCondition cfg body ops cond = .ok out) :
+    ∃ d, Spec.refOps t ops = .ok d ∧ parse out = .ok d := by
+  rw [applyWithCondition_validating hparse hvals] at h
+  exact applyWithCondition_refines (cfg := validating cfg) rfl hparse hpaths hrv hsize h
+
 theorem holds_of_good {cfg : Cfg} (hv : cfg.validatesValues = true) (hn : cfg.nan = .neverEqual) :
     Holds cfg :=
-  ⟨common cfg, fun _ _ _ _ _ hp hpaths hsize h => apply_wf hv hp hpaths hsize h, nan_equal_nothing hn⟩
+  ⟨common cfg, fun _ _ _ _ _ hp hpaths hsize h => apply_wf hv hp hpaths hsize h, nan_equal_nothing hn,
+   fun _ _ _ _ _ hp hpaths hrv hsize h => apply_refines_spec_partial hv hp hpaths hrv hsize h⟩
 
 theorem holds_except (cfg : Cfg) : HoldsExcept cfg :=
-  ⟨common cfg, fun _ _ _ _ _ hp hpaths hvals hsize h => apply_wf_partial hp hpaths hvals hsize h⟩
+  ⟨common cfg, fun _ _ _ _ _ hp hpaths hvals hsize h => apply_wf_partial hp hpaths hvals hsize h,
+   fun _ _ _ _ _ hp hpaths hrv hvals hsize h => apply_refines_spec_unvalidated_partial hp hpaths hrv hvals hsize h⟩
 
 /-! ## 8. witnesses for the unrepaired fact values (each reproduced on the real code) -/
 
@@ -445,7 +608,7 @@ theorem classify_sound (f : Facts) : (classify f).Sound (Holds (cfgOf f)) (Holds
     cases vv <;> cases nc <;> simp [hasUnknown] at hu <;> simp only [findings, cfgOf, Tri.isYes] <;>
       simp only [Verdict.Sound]
     · -- yes, equal
-      exact ⟨fun h => not_nanEqualNothing_of_equal true fx h.2.2, holds_except _⟩
+      exact ⟨fun h => not_nanEqualNothing_of_equal true fx h.2.2.1, holds_except _⟩
     · -- yes, neverEqual
       exact holds_of_good rfl rfl
     · -- no, equal
